@@ -1,5 +1,5 @@
 SPECIFICATION TSpec
-CONSTANTS MaxEpoch = 2 MaxPeer = 100000 CtlCompletesData = FALSE
+CONSTANTS MaxEpoch = 2 MaxPeer = 100000 CtlCompletesData = FALSE DropsLateReply = FALSE
 CONSTANT Senders <- TrSenders
 CONSTANT MaxSb <- TrMaxSb
 INVARIANT NotAccepted
